@@ -956,6 +956,30 @@ fn run_case(
 					out.line(&lhs, &format!("inner-err:{}", err_name(&e)));
 					continue;
 				}
+				// the block built from the grouped (pre-aggregated) operands is the block built from
+				// the flat list
+				{
+					let gb = Block::from_reward(&prev, &inner, rout.clone(), rkern.clone(), Difficulty::min_dma());
+					let r = match &gb {
+						Err(e) => format!("err:{}", block_err_name(e)),
+						Ok(gb) => {
+							let gi: Vec<CommitWrapper> = gb.inputs().into();
+							let bi: Vec<CommitWrapper> = b.inputs().into();
+							if gb.header.total_kernel_offset == b.header.total_kernel_offset && gi == bi && gb.outputs() == b.outputs() && gb.kernels() == b.kernels() {
+								"same".to_string()
+							} else {
+								"diff".to_string()
+							}
+						}
+					};
+					out.line(
+						&format!("tx blockg {} {} {} {} {}", case_no, hex(prev.total_kernel_offset.as_ref()), ids.out(&rout), ids.k(&rkern), groups_str(&groups)),
+						&r,
+					);
+					if r != "same" {
+						oracle_fail(out, &mut w.st, &format!("case {}: the block built from the grouping {} of the transactions is not the block built from the flat list: {}", case_no, groups_str(&groups), r));
+					}
+				}
 				match Block::hydrate_from(cb.clone(), &inner) {
 					Err(e) => {
 						out.line(&lhs, &format!("err:{}", block_err_name(&e)));
